@@ -224,7 +224,7 @@ PROPS["C06"] = dict(
                   dict(harness="any", build="plain", runs=600000, offset=1060000, enumerate=True, wall_cap=2400),
                   dict(harness="any", build="plain", runs=200, offset=1660000, valgrind=True, workers=8, wall_cap=1200)],
     ),
-    rule=("a case is one execution of a seeded history (1-15 operations) over three xtl::any objects and fourteen payload types on both sides of the in-place/heap threshold "
+    rule=("a case is one execution of a seeded history (1-15 operations) over three xtl::any objects and fifteen payload types on both sides of the in-place/heap threshold "
           "(int, two small nothrow-move tracked types, shared_ptr and a reference-like type whose assignment writes through to caller cells in place; a large, a throwing-move and an over-aligned tracked type, std::string, a type with an extra T(T&) copy constructor, a heap-sized reference-like type, a tree node with an initializer_list constructor and a type whose memberwise assignment can throw half-way on the heap; a plain pointer in place, against which array-typed casts must fail). "
           "Value assignment also takes the any's own content as argument (a = any_cast<T&>(a), also moved). The caller cells behind reference-like payloads must never change (the container may only construct and destroy payloads) and a copy of an any must never run T(T&). "
           "A fault is 'the k-th fault point of this step fails', a fault point being a payload copy/move (throws) or an allocation by xtl::any (operator new is replaced; bad_alloc). "
@@ -375,19 +375,19 @@ MANIFEST_TEXT = {
         technique="deterministic simulation: seeded operation histories with several handles on shared memory against a reference model, allocator fault injection, dirty caller memory",
     ),
     "C05": dict(
-        text="fault enumeration inside seeded histories: every sampled history over three variants with trivial, nothrow-movable, throwing-copy and throwing-move alternatives (plus further alternative sets: reference and const-reference closures of one type in one variant, defaulted-assignment alternatives with registered lifetimes, and all-trivially-destructible alternatives with throwing constructors and NaN doubles) is executed fault-free and then once for every (step, k) with a throw injected at the k-th constructor/assignment reached in that step; a lifetime registry checks construct-once/destroy-once/no-use-after-destruction, every observer must agree with the model, results without a throw are std::variant's, results after a throw satisfy the property's disjunction (valueless, pre-call value, or requested value)",
+        text="fault enumeration inside seeded histories: every sampled history over three variants with trivial, nothrow-movable, throwing-copy and throwing-move alternatives (plus further alternative sets: a variant with exactly 256 alternatives, an alternative constructible from anything, reference and const-reference closures of one type in one variant, defaulted-assignment alternatives with registered lifetimes, and all-trivially-destructible alternatives with throwing constructors and NaN doubles) is executed fault-free and then once for every (step, k) with a throw injected at the k-th constructor/assignment reached in that step; a lifetime registry checks construct-once/destroy-once/no-use-after-destruction, every observer must agree with the model, results without a throw are std::variant's, results after a throw satisfy the property's disjunction (valueless, pre-call value, or requested value)",
         design_ref="4.4",
         note="histories are sampled, fault positions inside each sampled history are enumerated; the table-based visitation path does not exist on this toolchain",
         technique="deterministic simulation with fault injection: injected throws at enumerated fault points, lifetime registry, reference model of std::variant semantics",
     ),
     "C06": dict(
-        text="fault enumeration inside seeded histories over three xtl::any objects and fourteen payload types on both sides of the in-place/heap threshold (among them a reference-like type whose assignment writes through to caller cells, and a type with an extra T(T&) constructor): each sampled history runs fault-free and then once per (step, k) with the k-th payload copy/move throwing or the k-th allocation failing; a lifetime registry checks construct-once/destroy-once/no-use-after-destruction, has_value/type/any_cast for every type must agree with the model after every step, a failed copy or value assignment must leave the target's previous value, copies must be independent, casts succeed only for exactly the stored type",
+        text="fault enumeration inside seeded histories over three xtl::any objects and fifteen payload types on both sides of the in-place/heap threshold (among them a reference-like type whose assignment writes through to caller cells, a type with an extra T(T&) constructor, an over-aligned type, and a node that itself holds an any and is assigned from inside its own content): each sampled history runs fault-free and then once per (step, k) with the k-th payload copy/move throwing or the k-th allocation failing; a lifetime registry checks construct-once/destroy-once/no-use-after-destruction, has_value/type/any_cast for every type must agree with the model after every step, a failed copy or value assignment must leave the target's previous value, copies must be independent, casts succeed only for exactly the stored type",
         design_ref="4.5",
         note="histories are sampled, fault positions inside each sampled history are enumerated; global operator new is replaced in the harness binary",
         technique="deterministic simulation with fault injection: injected throws and allocation failures at enumerated fault points, lifetime registry, reference model",
     ),
     "C07": dict(
-        text="dynamic half only: seeded histories in which wrappers of every kind are built from lvalues and from temporaries whose lifetime the simulator ends, then written through, copied, assigned, swapped and addressed while an owner actor writes the referents behind them; aliasing (same address, no copy, write-through both ways, no rebinding) and ownership (independent value that survives the temporary) are checked after every step through every accessor form - member and free, lvalue, const and rvalue, the rvalue forms on a temporary wrapper that is destroyed before the result is read - for same-kind and mixed-kind closures, including construction/assignment between owning optionals and reference proxies and forward_sequence in every cv/ref form",
+        text="dynamic half only: seeded histories in which wrappers of every kind are built from lvalues and from temporaries whose lifetime the simulator ends, then written through, copied, assigned, swapped and addressed while an owner actor writes the referents behind them; aliasing (same address, no copy, write-through both ways, no rebinding) and ownership (independent value that survives the temporary) are checked after every step through every accessor form - member and free, lvalue, const and rvalue, the rvalue forms on a temporary wrapper that is destroyed before the result is read - for same-kind and mixed-kind closures, including construction/assignment between owning optionals and reference proxies, swap and assignment of element proxies of the optional containers (flag closure = bitset reference), and forward_sequence in every cv/ref form",
         design_ref="4.6",
         note="the compile-time half (trait table over all cv/ref combinations, move-only payloads) is outside this technique and only evaluated as a model precondition",
         technique="deterministic simulation: seeded multi-actor aliasing/ownership histories, injected end of lifetime of source temporaries, copy-counting payloads",
@@ -411,7 +411,7 @@ MANIFEST_TEXT = {
         technique="deterministic simulation: hash invariants over seeded histories, placement/alignment/stale-byte variation, independent reference implementation",
     ),
     "C17": dict(
-        text="seeded registration/erasure/dispatch histories against every dispatcher kind (map and fast functor dispatchers with 1-3 arguments and both casting policies, static dispatcher symmetric and antisymmetric, acyclic and cyclic visitors), with recording handlers: a dispatch must run exactly the handler the model holds for the tuple of dynamic types with the caller's own objects in registered order and the extra argument itself, or report an error and run nothing; an exception thrown by a handler must reach the caller unchanged; registrations of the functor dispatchers also meet injected allocation failures, after which only the previous or the attempted handler (or an error if there was none) may answer for that tuple",
+        text="seeded registration/erasure/dispatch histories against every dispatcher kind (map and fast functor dispatchers with 1-3 arguments and both casting policies, static dispatcher symmetric and antisymmetric, acyclic and cyclic visitors), with recording handlers: a dispatch must run exactly the handler the model holds for the tuple of dynamic types with the caller's own objects in registered order and the extra argument itself, or report an error and run nothing; an exception thrown by a handler must reach the caller unchanged; registrations of the functor dispatchers also meet injected allocation failures, after which only the previous or the attempted handler (or an error if there was none) may answer for that tuple; dispatchers are copied and the original changed or destroyed; in a quarter of the runs the steps are issued from three OS threads, one at a time, so registration and dispatch happen on different threads",
         design_ref="4.10",
         note="sampled histories over a four-class hierarchy; the fault dimension is the error path (lookups that must fail), allocation failure inside registrations, and the lazily assigned process-global class indices",
         technique="deterministic simulation: seeded registration/lookup histories against a reference map, error-path injection, reset of process-global state per run",
